@@ -60,6 +60,7 @@ type stakeMonitor struct {
 	escrows, returns, stakingBetween int
 	sawEscrow                         bool
 	returnedEntries                   int64 // entries put back so far (each may leave one smallest unit in the pool)
+	prevRecs                          map[string]int
 	prev                              poolState
 }
 
@@ -125,13 +126,36 @@ func (m *stakeMonitor) After(c *Chain, w *World, br *BlockResult, outs []TxOutco
 			}
 		case OpFeeRefund, OpWithdrawTip:
 			m.returns++
-			m.returnedEntries += 8
 		}
 	}
 	if strings.Contains(tags, "executed:") {
 		m.returns++
-		m.returnedEntries += 16
 	}
+	// entries put back in this block: the per-backer entries of every stake record (escrowed stake, fee paid from
+	// stake) that existed before the block and is gone after it; each may leave one smallest unit in the pool
+	recsNow := map[string]int{}
+	_ = c.App.ReporterKeeper.DisputedDelegationAmounts.Walk(ctx, nil, func(k []byte, da reportertypes.DelegationsAmounts) (bool, error) {
+		recsNow["escrow|"+string(k)] = len(da.TokenOrigins)
+		return false, nil
+	})
+	_ = c.App.ReporterKeeper.FeePaidFromStake.Walk(ctx, nil, func(k []byte, da reportertypes.DelegationsAmounts) (bool, error) {
+		recsNow["fee|"+string(k)] = len(da.TokenOrigins)
+		return false, nil
+	})
+	for k, n := range m.prevRecs {
+		if _, still := recsNow[k]; !still {
+			m.returnedEntries += int64(n)
+		}
+	}
+	// a fee-from-stake record created and returned within one block is in neither snapshot: allowed for by the payment
+	for _, o := range outs {
+		if o.OK() && (o.Tx.Op.K == OpPropose || o.Tx.Op.K == OpAddFee) {
+			if fb, ok := o.Tx.Note["frombond"].(bool); ok && fb {
+				m.returnedEntries += 4
+			}
+		}
+	}
+	m.prevRecs = recsNow
 	ps := readPools(c)
 	if ps.slackBonded().IsNegative() {
 		return pbt.Violf("C05/bonded-pool-underfunded/"+tags, "block %d: bonded pool holds %s but bonded validators record %s tokens (before the block: %s / %s)",
